@@ -1038,4 +1038,22 @@ pub mod tests {
 #[allow(unused_imports, missing_docs, dead_code, unreachable_pub)]
 pub mod verif {
     use super::*;
+
+    /// Run `f` as the body of a real `read_tx` blocking task (C41).
+    pub async fn read_tx_probe<F, T>(store: &RedbStore, f: F) -> Result<T>
+    where
+        F: FnOnce() -> T + Send + 'static,
+        T: Send + 'static,
+    {
+        store.read_tx(move |_tx| Ok(f())).await
+    }
+
+    /// Run `f` as the body of a real `write_tx` blocking task (C41).
+    pub async fn write_tx_probe<F, T>(store: &RedbStore, f: F) -> Result<T>
+    where
+        F: FnOnce() -> T + Send + 'static,
+        T: Send + 'static,
+    {
+        store.write_tx(move |_tx| Ok(f())).await
+    }
 }
